@@ -61,7 +61,9 @@ def general_stats(cases, results):
         "edits_during_build": 0,
         "ninja_errors": collections.Counter(),
         "via_sh": 0,
+        "restat_cleaned_edges": 0,
         "latent_undeclared_reads": set(),
+        "transient_scratch": set(),
     }
     for c in cases:
         for res in results.get(c["id"], []):
@@ -94,6 +96,12 @@ def general_stats(cases, results):
                         if "edit" in s:
                             st["edits_during_build"] += 1
                             continue
+                        if "out" not in s:
+                            if "restat_cleaned" in s:
+                                st["restat_cleaned_edges"] += 1
+                            continue
+                        for tp in s.get("transient", []):
+                            st["transient_scratch"].add((s["rule"], os.path.splitext(tp)[1]))
                         st["steps_executed"] += 1
                         st["steps_per_rule"][s["rule"]] += 1
                         st["dirtiness_reasons"][s["reason"]] += 1
@@ -110,6 +118,8 @@ def general_stats(cases, results):
     for k, v in st.items():
         if isinstance(v, collections.Counter):
             out[k] = {str(kk): vv for kk, vv in sorted(v.items(), key=lambda t: str(t[0]))}
+        elif k == "transient_scratch":
+            out["transient_scratch_files_seen"] = sorted("%s: *%s" % t for t in v)
         elif k == "latent_undeclared_reads":
             out["latent_undeclared_reads"] = sorted("%s reads %s" % t for t in v)
         elif isinstance(v, set):
